@@ -12,11 +12,17 @@ For each class and each generated value v:
     encode(w) == octets                identical octets
     header fields of a service PDU survive (type, service choice, invoke ID)
 
-Bound: per class N values (quick 24, thorough 300; a Choice gets at least one
+Bound: per class N values (quick 32, thorough 300; a Choice gets at least one
 value per alternative, a Sequence with k optionals gets all 2**k presence
 masks when 2**k <= N, else none / all / random), list lengths 0..3, nesting
 depth up to 4, atomic values from boundary pools.  Plus the Annex F worked
 examples of ASHRAE 135 (F.1.x / F.3.x / F.4.x) typed in as exact octets.
+
+A failure is named <kind>-<Class> and reported once per class and kind.  When
+a value of a container class fails, the smallest nested value showing the same
+kind of problem on its own is looked for and the failure is attributed to its
+class (so one defective type gives one failure, not one per container, and the
+set of names does not depend on the seed).
 
 A value the library refuses to build or encode through an explicit `raise`
 (its own validation) is a generator problem: counted and listed under
@@ -27,7 +33,7 @@ a valid alternative impossible to put on the wire.
 import random
 import traceback
 
-N_VALUES = {'quick': 24, 'thorough': 300}
+N_VALUES = {'quick': 32, 'thorough': 300}
 MAX_DEPTH = 4
 MAX_LEN = 3
 
@@ -101,6 +107,113 @@ def _plans(cls, n, rng):
     return [{}] * n
 
 
+class _Refused(Exception):
+    """the library's own validation refused the generated value"""
+
+
+def _roundtrip(cls, v, service, choice=None, invoke_id=1):
+    """-> (octets or None, [(kind, detail)]); raises _Refused for a generator problem"""
+    from spec import gen_values as G
+    from bacpypes.constructeddata import Sequence
+    try:
+        if service:
+            octets = G.encode_service(v, invoke_id=invoke_id, service_choice=choice)
+        else:
+            octets = G.encode_constructed(v)
+    except Exception as err:
+        if _is_validation(err):
+            raise _Refused('refused at encode: %s: %s' % (type(err).__name__, str(err)[:120]))
+        return None, [('encode-crash', "encoding a metadata-valid value dies in a builtin operation: %s: %s at %s"
+                       % (type(err).__name__, err, _where(err)))]
+    try:
+        if service:
+            w, left = G.decode_service(cls, octets), 0
+        else:
+            w, left = G.decode_constructed_ex(cls, octets)
+    except Exception as err:
+        return octets, [('decode-raises-%s' % (type(err).__name__,),
+                         "decode of the class's own encoding raised %s: %s at %s" % (type(err).__name__, err, _where(err)))]
+    problems = []
+    if left:
+        problems.append(('leftover', "%d tag(s) of the class's own encoding not consumed by decode" % (left,)))
+    try:
+        cv, cw = G.canon(cls, v), G.canon(cls, w)
+    except Exception as err:
+        return octets, problems + [('canon-raises', "normal form of the decoded value raised %r" % (err,))]
+    if cv != cw:
+        problems.append(('roundtrip', "decoded value differs: %s" % (repr(cw)[:400],)))
+    elif service and G.header_of(v) != G.header_of(w):
+        problems.append(('header', "fixed header differs: %r vs %r" % (G.header_of(v), G.header_of(w))))
+    else:
+        # the library's own view of the content (parameters only for a service
+        # PDU: the header part renders unset flags differently)
+        try:
+            if service:
+                dv, dw = Sequence.dict_contents(v), Sequence.dict_contents(w)
+            else:
+                dv, dw = v.dict_contents(), w.dict_contents()
+        except Exception:
+            dv = dw = None
+        if dv != dw and _plain(dv) != _plain(dw):
+            problems.append(('dictcontents', "dict_contents differ: %s vs %s" % (repr(dv)[:250], repr(dw)[:250])))
+    try:
+        # a decoded service instance already carries its header
+        octets2 = G.encode_service(w) if service else G.encode_constructed(w)
+    except Exception as err:
+        return octets, problems + [('reencode-raises-%s' % (type(err).__name__,),
+                                    "re-encoding the decoded value raised %s: %s at %s" % (type(err).__name__, err, _where(err)))]
+    if octets2 != octets:
+        problems.append(('reencode-differs', "re-encoded octets %s" % (_hex(octets2)[:300],)))
+    return octets, problems
+
+
+def _subvalues(cls, v, out=None):
+    """(class, value) of every Sequence / Choice value nested in v, v excluded"""
+    from spec import gen_values as G
+    from bacpypes.constructeddata import Sequence, Choice, Any
+    if out is None:
+        out = []
+    if isinstance(v, Sequence):
+        elements = type(v).sequenceElements
+    elif isinstance(v, Choice):
+        elements = type(v).choiceElements
+    else:
+        return out
+    for el in elements:
+        x = getattr(v, el.name, None)
+        if x is None:
+            continue
+        if G.is_listlike(el.klass):
+            items = x if isinstance(x, list) else (x.value[1:] if G.is_array_of(el.klass) else x.value)
+            for item in items:
+                if isinstance(item, (Sequence, Choice)):
+                    out.append((el.klass.subtype, item))
+                    _subvalues(el.klass.subtype, item, out)
+        elif isinstance(x, (Sequence, Choice)) and not isinstance(x, Any):
+            out.append((el.klass, x))
+            _subvalues(el.klass, x, out)
+    return out
+
+
+def _localise(cls, v, kind):
+    """smallest nested value that shows the same kind of problem on its own:
+    the failure is reported once, for the class at the root of the cause, and
+    not once per container that happens to hold such a value"""
+    from spec import gen_values as G
+    best = None
+    for scls, sv in _subvalues(cls, v):
+        try:
+            octets, problems = _roundtrip(scls, sv, False)
+        except Exception:
+            continue
+        for k, detail in problems:
+            if k == kind:
+                size = len(G.describe(scls, sv, 100000))
+                if best is None or size < best[0]:
+                    best = (size, scls, sv, octets, detail)
+    return best
+
+
 def _check_class(args):
     """all values of one class; returns a result dict (picklable)"""
     kind, choice, cls, n, seed = args
@@ -109,103 +222,44 @@ def _check_class(args):
     label = name if choice is None or kind != 'error_types' else '%s[%d]' % (name, choice)
     rng = random.Random('%s:%s:%s:%s' % (seed, kind, choice, name))
     res = {'label': label, 'name': name, 'kind': kind, 'evaluations': 0, 'ok': 0,
-           'failures': [], 'skipped': [], 'rejected': 0, 'sample': None,
-           'alts': set(), 'maxlen': 0}
+           'failures': [], 'skipped': [], 'rejected': 0, 'sample': None, 'maxlen': 0}
     reject_reasons = {}
     service = kind != 'constructed'
 
-    def fail(fkind, inp, detail):
-        fname = '%s-%s' % (fkind, name)
+    def fail(fkind, fcls, inp, detail):
+        fname = '%s-%s' % (fkind, fcls.__name__)
         if not any(f['name'] == fname for f in res['failures']):
             res['failures'].append({'name': fname, 'input': inp[:500], 'detail': detail[:600]})
 
-    def enc(v):
-        if service:
-            return G.encode_service(v, invoke_id=1 + (res['evaluations'] % 255), service_choice=choice)
-        return G.encode_constructed(v)
+    def refused(reason):
+        reject_reasons[reason] = reject_reasons.get(reason, 0) + 1
+        res['rejected'] += 1
 
     plans = _plans(cls, n, rng)
     for plan in plans:
         try:
             v = G.gen(cls, rng, 0, MAX_DEPTH, MAX_LEN, plan=plan)
         except G.Ungeneratable as err:
-            reject_reasons.setdefault('not generated: %s' % (err,), 0)
-            reject_reasons['not generated: %s' % (err,)] += 1
-            res['rejected'] += 1
+            refused('not generated: %s' % (err,))
             continue
-        desc = G.describe(cls, v, 400)
         try:
-            octets = enc(v)
-        except Exception as err:
-            if _is_validation(err):
-                key = 'refused at encode: %s: %s' % (type(err).__name__, str(err)[:120])
-                reject_reasons[key] = reject_reasons.get(key, 0) + 1
-                res['rejected'] += 1
-            else:
-                res['evaluations'] += 1
-                fail('encode-crash', desc,
-                     "encoding a metadata-valid value dies in a builtin operation: %s: %s at %s"
-                     % (type(err).__name__, err, _where(err)))
+            octets, problems = _roundtrip(cls, v, service, choice, 1 + (res['evaluations'] % 255))
+        except _Refused as err:
+            refused(str(err))
             continue
-
         res['evaluations'] += 1
-        res['maxlen'] = max(res['maxlen'], len(octets))
-        inp = '%s octets=%s' % (desc, _hex(octets)[:120])
-        try:
-            if service:
-                w = G.decode_service(cls, octets)
-                left = 0
+        if octets is not None:
+            res['maxlen'] = max(res['maxlen'], len(octets))
+        desc = G.describe(cls, v, 380)
+        for pkind, detail in problems:
+            inner = _localise(cls, v, pkind)
+            if inner is not None:
+                _, scls, sv, soctets, sdetail = inner
+                fail(pkind, scls, '%s octets=%s' % (G.describe(scls, sv, 380), _hex(soctets or b'')[:120]),
+                     sdetail + ' (met inside a %s value)' % (name,))
             else:
-                w, left = G.decode_constructed_ex(cls, octets)
-        except Exception as err:
-            fail('decode-raises-%s' % (type(err).__name__,), inp, "decode of the class's own encoding raised %s: %s at %s"
-                 % (type(err).__name__, err, _where(err)))
-            continue
-        good = True
-        if left:
-            fail('leftover', inp, "%d tag(s) of the class's own encoding not consumed by decode" % (left,))
-            good = False
-        try:
-            cv, cw = G.canon(cls, v), G.canon(cls, w)
-        except Exception as err:
-            fail('canon-raises', inp, "normal form of the decoded value raised %r" % (err,))
-            continue
-        if cv != cw:
-            fail('roundtrip', inp, "decoded value differs: %s" % (repr(cw)[:400],))
-            good = False
-        elif service and G.header_of(v) != G.header_of(w):
-            fail('header', inp, "fixed header differs: %r vs %r" % (G.header_of(v), G.header_of(w)))
-            good = False
-        else:
-            # the library's own view of the content
-            try:
-                if service:
-                    # parameters only: the header part renders unset flags differently
-                    from bacpypes.constructeddata import Sequence
-                    dv = Sequence.dict_contents(v)
-                    dw = Sequence.dict_contents(w)
-                else:
-                    dv = v.dict_contents()
-                    dw = w.dict_contents()
-            except Exception:
-                dv = dw = None
-            if dv != dw and _plain(dv) != _plain(dw):
-                fail('dictcontents', inp, "dict_contents differ: %s vs %s" % (repr(dv)[:250], repr(dw)[:250]))
-                good = False
-        try:
-            if service:
-                # the decoded instance already carries its header
-                octets2 = G.encode_service(w)
-            else:
-                octets2 = G.encode_constructed(w)
-        except Exception as err:
-            fail('reencode-raises-%s' % (type(err).__name__,), inp, "re-encoding the decoded value raised %s: %s at %s"
-                 % (type(err).__name__, err, _where(err)))
-            continue
-        if octets2 != octets:
-            fail('reencode-differs', inp, "re-encoded octets %s" % (_hex(octets2)[:300],))
-            good = False
-        if good:
+                fail(pkind, cls, '%s octets=%s' % (desc, _hex(octets or b'')[:120]), detail)
+        if not problems:
             res['ok'] += 1
             if res['sample'] is None or (len(octets) < 24 and len(octets) > len(res['sample'][1]) // 2):
                 res['sample'] = (desc[:160], _hex(octets)[:96])
@@ -215,7 +269,6 @@ def _check_class(args):
     else:
         for reason, cnt in sorted(reject_reasons.items()):
             res['skipped'].append('%s: %d of %d values %s' % (label, cnt, len(plans), reason))
-    res['alts'] = None
     return res
 
 
